@@ -7,6 +7,7 @@ import json, os, sys, glob
 
 ROOT = os.path.dirname(os.path.dirname(os.path.abspath(__file__)))
 pid, rnd, wt, out = sys.argv[1], sys.argv[2], sys.argv[3], sys.argv[4]
+ONE = len(sys.argv) > 5 and sys.argv[5] == "one"
 prop = [json.loads(l) for l in open(os.path.join(ROOT, "properties.jsonl")) if l.strip() and json.loads(l)["id"] == pid][0]
 earlier = []
 for d in sorted(glob.glob(os.path.join(ROOT, "seeded", pid + "-*"))):
@@ -24,7 +25,7 @@ Semantic property {pid} - {prop['title']}:
 It is meant to hold for: {prop['quantifier']['text']}
 Relevant files: {files}
 
-TASK: produce up to TWO different realistic source changes (mutations) to the library code (non-test .go files; for generated code under streams/ you may edit the generated files directly, and optionally the generator under astool/ too) such that each change
+TASK: produce {"ONE realistic source change (mutation; write it as mutation 1)" if ONE else "up to TWO different realistic source changes (mutations)"} to the library code (non-test .go files; for generated code under streams/ you may edit the generated files directly, and optionally the generator under astool/ too) such that each change
   (a) BREAKS the property above,
   (b) still compiles (`go build ./...`), and
   (c) still passes the existing test suite exactly as the unchanged tree does. Note: the unchanged tree already has some always-failing tests; so first run the suite on the unchanged worktree and record which tests pass, then check the same set still passes with your change. Command (run in the worktree root): `export GOFLAGS=-mod=mod GOPROXY=off GOSUMDB=off GOTOOLCHAIN=local; go test -vet=off -count=1 ./pub/... ./streams/... ./astool/... 2>&1 | tail -40` (use `-json` or `-v` if you need per-test results; the sandbox has no network).
